@@ -26,6 +26,7 @@ type c03Case struct {
 	Keys    []string      `json:"keys"`             // live keys
 	Gone    []string      `json:"gone,omitempty"`   // keys that were stored and deleted again before listing
 	Marked  []string      `json:"marked,omitempty"` // mem only: keys deleted while versioning is enabled (delete markers)
+	Absent  []string      `json:"absent,omitempty"` // keys deleted while they held nothing (directory parts of live keys, for example)
 	Prefix  string        `json:"prefix"`
 	Delim   string        `json:"delim"`
 	V2      bool          `json:"v2,omitempty"`
@@ -268,6 +269,11 @@ func c03Replay(check string, raw json.RawMessage) ([]disc, error) {
 	} else if err := b.sync(cs.Keys); err != nil {
 		return nil, err
 	}
+	for _, k := range cs.Absent {
+		if _, ok := b.live[k]; !ok {
+			del(b.st, "bk0", k)
+		}
+	}
 	ds, _ := c03Check(b.st, "bk0", b.live, cs.Prefix, cs.Delim, cs.V2)
 	return ds, nil
 }
@@ -277,8 +283,8 @@ func TestC03(t *testing.T) {
 		ID:    "C03",
 		Level: "exploration",
 		Rule: "cases = (backend, live key set, deleted keys, prefix, delimiter, V1/V2); bounded-exhaustive: all key sets of size <= S over the 18 keys of {a,b,/}^<=3 that neither start nor end with '/', " +
-			"x all 27 prefixes not starting with '/', x delimiter in {none,'/'} on every backend and {'a','b'} on mem/bolt (restricted to the property's domain), x V1/V2, the bucket being reused so every earlier set is a delete history; " +
-			"random: richer keys (UTF-8, escaping, dots), constructed prefixes, put/overwrite/delete histories, delete markers and version deletions on mem; " +
+			"x all 27 prefixes not starting with '/', x delimiter in {none,'/'} on every backend and {'a','b'} on mem/bolt (restricted to the property's domain), x V1/V2, the bucket being reused so every earlier set is a delete history, and the directory parts of the live keys being deleted (they hold nothing) before listing; " +
+			"random: richer keys (UTF-8, escaping, dots), constructed prefixes, put/overwrite/delete histories, deletes of names that hold nothing, delete markers and version deletions on mem; " +
 			"non-trivial = the oracle listing has both contents and a common prefix, or the prefix filters out a live key, or the history contains a delete; distinct by (backend, key set, prefix, delimiter, version)",
 		Replay: c03Replay,
 		Run:    c03Run,
@@ -323,6 +329,9 @@ func c03Run(t *testing.T, c *evid.Collector) {
 		if hadDelete {
 			labels = append(labels, "after-delete")
 		}
+		if len(cs.Absent) > 0 {
+			labels = append(labels, "deleted-absent-key")
+		}
 		c.Case(evid.FP(mustJSON(cs)), nt, func() interface{} { return cs }, labels...)
 		return report(c, "listing", ds, cs)
 	}
@@ -353,6 +362,24 @@ func c03Run(t *testing.T, c *evid.Collector) {
 			if len(prevSets) > 0 {
 				gone = prevSets[len(prevSets)-1]
 			}
+			// deleting a key that holds nothing changes nothing, also when it is the directory part of
+			// live keys
+			var absent []string
+			for _, key := range set {
+				for i := 1; i < len(key); i++ {
+					if key[i] == '/' {
+						if _, ok := b.live[key[:i]]; !ok {
+							absent = append(absent, key[:i])
+						}
+					}
+				}
+			}
+			for _, a := range absent {
+				if r := del(b.st, "bk0", a); r.Status != 204 {
+					cs := c03Case{Backend: k, Keys: append([]string(nil), set...), Absent: absent}
+					report(c, "listing", dsc("delete-absent", "backend=%s: deleting %q, which holds nothing, answered %s", k, a, r), cs)
+				}
+			}
 			delims := []string{"", "/"}
 			if !k.IsFs() {
 				delims = append(delims, "a", "b")
@@ -364,7 +391,7 @@ func c03Run(t *testing.T, c *evid.Collector) {
 					}
 					for _, v2 := range []bool{false, true} {
 						ds, want := c03Check(b.st, "bk0", b.live, p, d, v2)
-						cs := c03Case{Backend: k, Keys: append([]string(nil), set...), Gone: gone, Prefix: p, Delim: d, V2: v2}
+						cs := c03Case{Backend: k, Keys: append([]string(nil), set...), Gone: gone, Absent: absent, Prefix: p, Delim: d, V2: v2}
 						record(cs, ds, want, len(set), len(gone) > 0, "exhaustive")
 					}
 				}
@@ -497,7 +524,7 @@ func c03Run(t *testing.T, c *evid.Collector) {
 			panic(err)
 		}
 		live := map[string][]byte{}
-		var gone, marked []string
+		var gone, marked, absent []string
 		versioned := k == backends.Mem && rapid.IntRange(0, 2).Draw(rt, "versioned") == 0
 		if versioned {
 			body := []byte(`<VersioningConfiguration><Status>Enabled</Status></VersioningConfiguration>`)
@@ -530,6 +557,15 @@ func c03Run(t *testing.T, c *evid.Collector) {
 			}
 			if strings.HasPrefix(key, delim) || strings.HasSuffix(key, delim) {
 				continue
+			}
+			if i := strings.LastIndex(key, "/"); i > 0 && !versioned && rapid.IntRange(0, 7).Draw(rt, "deldir") == 0 {
+				// delete what is only the directory part of a key: nothing is stored under that name
+				if _, ok := live[key[:i]]; !ok {
+					if r := del(st, "bk0", key[:i]); r.Status != 204 {
+						rt.Fatalf("harness: delete %q: %s", key[:i], r)
+					}
+					absent = append(absent, key[:i])
+				}
 			}
 			if k.IsFs() {
 				conflict := false
@@ -605,7 +641,7 @@ func c03Run(t *testing.T, c *evid.Collector) {
 			}
 			v2 := rapid.Bool().Draw(rt, "v2")
 			ds, want := c03Check(st, "bk0", live, prefix, d, v2)
-			cs := c03Case{Backend: k, Keys: sortedKeys(live), Gone: gone, Marked: marked, Prefix: prefix, Delim: d, V2: v2}
+			cs := c03Case{Backend: k, Keys: sortedKeys(live), Gone: gone, Marked: marked, Absent: absent, Prefix: prefix, Delim: d, V2: v2}
 			src := "random"
 			if len(marked) > 0 {
 				src = "random-delete-markers"
